@@ -613,7 +613,13 @@ impl AgentStatusSharedState {
                 &format!("{:?}", module),
                 logger::AGENT_LOGGER_KEY,
             );
-            message = format!("{}...", &message[0..MAX_STATUS_MESSAGE_LENGTH]);
+            // slicing a str off a char boundary panics, back off to the closest boundary
+            // (the status message may carry non-ASCII host error text)
+            let mut end = MAX_STATUS_MESSAGE_LENGTH;
+            while !message.is_char_boundary(end) {
+                end -= 1;
+            }
+            message = format!("{}...", &message[0..end]);
         }
 
         ProxyAgentDetailStatus {
